@@ -2,6 +2,7 @@
   Driver.World — the line-protocol side of the peer / scripted-backend model (Lmd.Peer, Lmd.PeerLoop).
 -/
 import Lmd.PeerLoop
+import Lmd.Commands
 import Driver.Ops
 
 open Lean (Json)
@@ -14,6 +15,7 @@ structure PeerEntry where
   name : String
   p : PeerSt
   b : BackendSt
+  cb : CmdBackend := {}
   deriving Inhabited
 
 structure WState where
@@ -142,8 +144,19 @@ def worldStep (schema : Schema) (ws? : Option WState) (clock : Int) (j : Json) :
         | some (.num n) => { b with failAfter := some n.mantissa.toNat, failMode := jStr j "fail_mode" }
         | _ => b
       let b := if jStr j "mode" != "" then { b with mode := jStr j "mode" } else b
-      { e with b := b }
+      let cb := match (j.getObjVal? "cmd_reply").toOption with
+        | some (.str r) => { e.cb with reply := r }
+        | _ => e.cb
+      { e with b := b, cb := cb }
     (some ws, clock, none)
+  | "backend_log", some ws =>
+    let bid := jStr j "backend"
+    match ws.peers.find? (·.id == bid) with
+    | none => (some ws, clock, some (Json.mkObj (base ++ [("error", .str "no such backend")])))
+    | some e =>
+      let batches := Json.arr (e.cb.batches.map (fun b => Json.arr (b.map Json.str).toArray)).toArray
+      let ws := mapPeer ws bid fun e => { e with cb := { e.cb with batches := [] } }
+      (some ws, clock, some (Json.mkObj (base ++ [("batches", batches)])))
   | _, ws? => (ws?, clock, some (Json.mkObj (base ++ [("error", .str "unknown world op")])))
 
 end Driver
